@@ -128,6 +128,27 @@ def _(c):
         return not bad, {'bad': bad}
     c.const('lookups-load-and-verify-manifests-before-reading-entries', lookups_load_first, props=['C02'])
 
+    def lookups_only_load_through_the_chain(repo):
+        """the verification and lookup APIs bring Manifests into the loader through load_manifests_for_path only (which loads a
+        Manifest after checking it against the MANIFEST entry of an accepted parent): none of them scans directories for
+        Manifests, loads a Manifest by name or creates one"""
+        bad = []
+        forbidden = ('self.load_unregistered_manifests', 'self.load_manifest', 'self.create_manifest', 'self.manifest_loader',
+                     'self.manifest_loader.verify_and_load', 'ManifestFile', 'ManifestLoader')
+        for q in ('ManifestRecursiveLoader.find_timestamp', 'ManifestRecursiveLoader.find_path_entry',
+                  'ManifestRecursiveLoader.find_dist_entry', 'ManifestRecursiveLoader.get_file_entry_dict',
+                  'ManifestRecursiveLoader.verify_path', 'ManifestRecursiveLoader.assert_path_verifies',
+                  'ManifestRecursiveLoader.assert_directory_verifies', 'ManifestRecursiveLoader._iter_manifests_for_path',
+                  'ManifestRecursiveLoader._iter_unordered_manifests_for_path'):
+            fn = _fn(repo, q)
+            for n in ast.walk(fn):
+                if isinstance(n, ast.Call) and ast.unparse(n.func) in forbidden:
+                    bad.append((q, n.lineno, ast.unparse(n.func)))
+                if isinstance(n, ast.Subscript) and isinstance(n.ctx, (ast.Store, ast.Del)) and ast.unparse(n.value) == 'self.loaded_manifests':
+                    bad.append((q, n.lineno, 'writes self.loaded_manifests'))
+        return not bad, {'bad': bad}
+    c.const('lookups-bring-in-manifests-only-through-the-verified-chain', lookups_only_load_through_the_chain, props=['C02'])
+
     def unlink_only_renamed(repo):
         fn = _fn(repo, 'ManifestRecursiveLoader.save_manifests')
         calls = [n for n in ast.walk(fn) if isinstance(n, ast.Call) and ast.unparse(n.func) in effects.WRITE_PRIMS]
